@@ -130,7 +130,7 @@ def random_script(rng, length, maxdim=3, maxfreq=3, convert=True, nobj=NOBJ):
         elif k < 0.33:
             ops.append("%d setfreq %d %d" % (o, idx(rng, s.f), rng.randint(0, 9)))
         elif k < 0.35:
-            ops.append("%d %s" % (o, rng.choice(("fmin", "fmax", "getfv", "dims", "meta", "hasfz0"))))
+            ops.append("%d %s" % (o, rng.choice(("fmin", "fmax", "getfv", "dims", "meta", "hasfz0", "setfvself"))))
         elif k < 0.37:
             ops.append("%d setfv %s" % (o, vlist(rng, rng.choice((s.f, s.f, s.f + 1, max(s.f - 1, 0))),
                                                  lambda g: str(g.randint(0, 9)))))
